@@ -112,6 +112,9 @@ fn run_check(id: &str, tier: &str) -> i32 {
         "C02" => props::c01::run_c02(&rep),
         "C03" => props::c03::run_c03(&rep),
         "C04" => props::c04::run_c04(&rep),
+        "C05" => props::c05::run_c05(&rep),
+        "C06" => props::c06::run_c06(&rep),
+        "C08" => props::c08::run_c08(&rep),
         "C09" => props::c09::run_c09(&rep),
         "C10" => props::c10::run_c10(&rep),
         "C11" => props::c11::run_c11(&rep),
@@ -121,6 +124,7 @@ fn run_check(id: &str, tier: &str) -> i32 {
         "C16" => props::c16::run_c16(&rep),
         "C17" => props::c17::run_c17(&rep),
         "C18" => props::c18::run_c18(&rep),
+        "C26" => props::c26::run_c26(&rep),
         "C28" => props::c28::run_c28(&rep),
         _ => {
             eprintln!("no check for {}", id);
